@@ -138,17 +138,44 @@ def run(rep, tier):
     rep.assume("registered allowed-memory ranges are not supported by the Cranelift path (the property lists only packet, metadata buffer and stack)")
 
 
+def _prelude_root(F):
+    """the function that sets up a compiled function's entry state: it reaches (itself or through the private
+    helpers it is split into) both the stack-slot creation and the reading of the entry block's parameters, and
+    none of its callees does"""
+    from dispatch import thir_reach, thir_local_callees
+
+    def has(p, suffix):
+        fn = F.fns.get(p) or {}
+        return bool(fn.get("thir")) and any(x.get("k") == "call" and (callee_path(x) or "").endswith(suffix) for x in walk(fn["thir"]["body"]))
+
+    def reaches_both(p):
+        r = thir_reach(F, [p])
+        return any(has(q, "create_sized_stack_slot") for q in r) and any(has(q, "block_params") for q in r)
+    both = [p for p, fn in F.fns.items() if p.startswith("cranelift::") and fn.get("thir") and "{closure" not in p and reaches_both(p)]
+    return [p for p in both if not any(g in both for g in thir_local_callees(F, F.fns[p]) if g != p)]
+
+
 def _prelude(cx):
     F = cx.F
-    cands = [p for p, fn in F.fns.items() if p.startswith("cranelift::") and fn.get("thir") and
-             any(x.get("k") == "call" and (callee_path(x) or "").endswith("create_sized_stack_slot") for x in walk(fn["thir"]["body"]))]
+    cands = _prelude_root(F)
     if len(cands) != 1:
         return False, "prelude function candidates: %s" % cands
     ev = symex.Evaluator(F, models=clmodel.cl_models(), max_depth=6)
     selfv = ev.sym_for("self", "cranelift::CraneliftCompiler")
     key = ("self", "prelude")
     st = symex.St().set(key, selfv)
-    outs = ev.run_fn(cands[0], [("ref", ("pv", key)), ("obj", "bcx", "&mut FunctionBuilder"), ("obj", "entry", "Block")], st)
+    args = []
+    for q in F.fns[cands[0]]["thir"]["params"]:
+        ty = q.get("ty") or ""
+        if "CraneliftCompiler" in ty or ty in ("&mut Self", "&Self"):
+            args.append(("ref", ("pv", key)))
+        elif "FunctionBuilder" in ty:
+            args.append(("obj", "bcx", "&mut FunctionBuilder"))
+        elif ty.endswith("Block"):
+            args.append(("obj", "entry", "Block"))
+        else:
+            return False, "prelude function %s takes an argument of type %s" % (cands[0], ty)
+    outs = ev.run_fn(cands[0], args, st)
     if not outs:
         return False, "cannot evaluate the prelude"
     defs = {}
